@@ -90,18 +90,20 @@ def nextHeight : Chain → Nat
 /-- `BlockHeaderByNumber` on the local chain. -/
 def byNumber? (c : Chain) (n : Nat) : Option Blk := c.find? (fun b => b.num == n)
 
-/-- Which variant of the code is modelled. `asFound` is the code as it is in /repo; the model
-follows the code: when a proposed fix is applied, set the corresponding field in `Cfg.asFound`
-(the theorems are stated for every `Cfg`). -/
+/-- Which variant of the code is modelled. The model follows the code: `Cfg.asFound` is the variant
+/repo contains NOW — since the commits 4de714c, 6c0318d, 508f9af that is the repaired code, all
+three fields `true` — and `Cfg.original` is the code at the pinned commit before those fixes. The
+theorems are stated for every `Cfg`; the negation witnesses are about `Cfg.original`. -/
 structure Cfg where
-  /-- `isReverting` returns `(0, true)` instead of `(remoteHeight-1, true)` when `remoteHeight = 0` -/
+  /-- `isReverting` returns `(0, true)` instead of `(remoteHeight-1, true)` when `remoteHeight = 0`
+  (`proposed-fixes/C06-isreverting-remote-height-zero.diff`, commit 4de714c) -/
   zeroGuard : Bool
   /-- `revertTask` breaks when the block it was given for `BlockByNumber(head.num)` carries another
-  number (`proposed-fixes/C06-reverttask-check-block-number.diff`) -/
+  number (`proposed-fixes/C06-reverttask-check-block-number.diff`, commit 6c0318d) -/
   numCheck : Bool
   /-- on `ErrParentDoesNotMatchHead` `storeTask` starts `revertTask(block.Number-1)` instead of
   `revertTask(block.Number-2)`: the head is compared with the source before it is reverted
-  (`proposed-fixes/C06-storetask-confirm-head-before-revert.diff`) -/
+  (`proposed-fixes/C06-storetask-confirm-head-before-revert.diff`, commit 508f9af) -/
   confirmHead : Bool
 deriving DecidableEq, Repr, Inhabited
 
@@ -110,7 +112,11 @@ deriving DecidableEq, Repr, Inhabited
 def Cfg.original : Cfg := ⟨false, false, false⟩
 
 /-- THE SWITCH: the variant /repo currently contains (used by the driver, i.e. by the
-correspondence check). Set a field to `true` when the corresponding proposed fix is applied. -/
+correspondence check, and by the `…_asFound` theorems in Props.lean). A field is `true` when the
+corresponding fix is in /repo: `zeroGuard` = 4de714c, `numCheck` = 6c0318d, `confirmHead` = 508f9af.
+If one of these commits is reverted, set its field back to `false` (the check then reports the
+finding again as a violation, and `run_accepted_asFound` / `convergence_sequential_asFound` stop
+compiling until they are weakened). -/
 def Cfg.asFound : Cfg := ⟨true, true, true⟩
 
 /-- all proposed fixes applied -/
